@@ -74,8 +74,14 @@ def load_known():
         return json.load(f)
 
 
+PRE_EMIT = None     # thorough tier: callable(prop) -> extra rules (controls, witnesses, dependency frontier)
+
+
 def emit(prop, tier, seed, rules, started, explanation, assumptions, not_decided, extra=None, configs=("dev", "rel")):
     """Write evidence, print the contract lines, return the exit code."""
+    control_run = bool(os.environ.get("SM9_CONTROL_RUN"))
+    if PRE_EMIT is not None and not control_run and not any(r.violations for r in rules):
+        rules = list(rules) + list(PRE_EMIT(prop))
     known = load_known()
     known_keys = {(k["property"], k["key"]): k for k in known.get("known", [])}
     all_viol = []
@@ -130,11 +136,12 @@ def emit(prop, tier, seed, rules, started, explanation, assumptions, not_decided
         "known_findings_reported": len(known_hit),
     }
     evdir = os.path.join(VERIF, "evidence")
-    os.makedirs(evdir, exist_ok=True)
-    tmp = os.path.join(evdir, "%s.json.tmp%d" % (prop, os.getpid()))
-    with open(tmp, "w") as f:
-        json.dump(ev, f, indent=1, default=str)
-    os.replace(tmp, os.path.join(evdir, "%s.json" % prop))
+    if not control_run:
+        os.makedirs(evdir, exist_ok=True)
+        tmp = os.path.join(evdir, "%s.json.tmp%d" % (prop, os.getpid()))
+        with open(tmp, "w") as f:
+            json.dump(ev, f, indent=1, default=str)
+        os.replace(tmp, os.path.join(evdir, "%s.json" % prop))
 
     for r in rules:
         print("  rule %-18s instances=%-4d floor=%-3d obligations=%-4d discharged=%-4d violations=%d" %
@@ -143,7 +150,7 @@ def emit(prop, tier, seed, rules, started, explanation, assumptions, not_decided
         print("KNOWN-FINDING: property=%s %s [%s]" % (prop, k.get("what", v["msg"]), v["key"]))
     code = 0
     if new_viol:
-        rdir = os.path.join(evdir, "replay")
+        rdir = os.path.join(evdir, "replay") if not control_run else os.path.join(os.environ.get("TMPDIR", "/tmp"), "sm9ctl-replay")
         os.makedirs(rdir, exist_ok=True)
         for v in new_viol:
             safe = "".join(c if c.isalnum() or c in "-_." else "_" for c in v["key"])[:150]
